@@ -84,6 +84,22 @@ func corpus() [][]Family {
 	}
 }
 
+func protoCorpus() [][]Family {
+	nh := func() *NHist {
+		return &NHist{Schema: 1, ZeroTh: 0.5, ZeroCnt: 2, PS: [][2]int64{{1, 2}}, PD: []int64{3, -1}}
+	}
+	cl := []Bucket{{UB: 1, C: 2}, {UB: math.Inf(1), C: 7}}
+	l := func(v string) []LP { return []LP{{"k", v}} }
+	return [][]Family{
+		// native (with classic buckets) followed by classic
+		{{Name: "mix_nc", Type: tHist, M: []Metric{{L: l("a"), Count: 7, Sum: 1, NH: nh(), B: cl}, {L: l("b"), Count: 7, Sum: 2, B: cl}}}},
+		// classic followed by native followed by classic
+		{{Name: "mix_cnc", Type: tHist, M: []Metric{{L: l("a"), Count: 7, Sum: 1, B: cl}, {L: l("b"), Count: 7, Sum: 2, NH: nh()}, {L: l("c"), Count: 7, Sum: 3, B: cl}}}},
+		// native without buckets followed by classic, native
+		{{Name: "mix_ncn", Type: tGHist, M: []Metric{{L: l("a"), Count: 7, Sum: 1, NH: nh()}, {L: l("b"), Count: 0, Sum: 0}, {L: l("c"), Count: 7, Sum: 3, NH: nh(), B: cl}}}},
+	}
+}
+
 var (
 	legacyFirst = "abcdefghijklmnopqrstuvwxyzABCDEFGHIJKLMNOPQRSTUVWXYZ_"
 	legacyRest  = legacyFirst + "0123456789"
@@ -110,7 +126,7 @@ func utf8Name(r *gen.Rand) string {
 	k := 1 + r.Intn(2)
 	for i := 0; i < k; i++ {
 		p := gen.Pick(r, utf8Pieces[:6])
-		if r.Chance(1, 6) {
+		if r.Chance(1, 12) {
 			p = gen.Pick(r, utf8Pieces)
 		}
 		rs := []rune(s)
@@ -159,19 +175,39 @@ func genFloat(r *gen.Rand) float64 {
 	}
 }
 
+// tame keeps a millisecond timestamp that survives the OpenMetrics float round trip, and rounds
+// most others to whole seconds (the rest exercise the known truncation deviation).
+func tame(r *gen.Rand, ms int64, exact func(int64) bool) int64 {
+	if exact(ms) || r.Chance(1, 8) {
+		return ms
+	}
+	return ms / 1000 * 1000
+}
+
 func genTs(r *gen.Rand) *int64 {
 	if r.Bool() {
 		return nil
 	}
+	v := genTs0(r)
+	if v != nil && *v > -(1<<50) && *v < 1<<50 {
+		*v = tame(r, *v, omExactMs)
+	}
+	return v
+}
+
+func genTs0(r *gen.Rand) *int64 {
 	switch r.Intn(10) {
 	case 0:
 		return ip(0)
 	case 1:
 		return ip(r.PickI64(1, 999, 1000, 1001, 1002, 4003, 1009))
 	case 2:
-		return ip(-r.Range(1, 100000))
+		if r.Chance(1, 3) {
+			return ip(-r.Range(1, 100000))
+		}
+		return ip(r.Range(1, 100000))
 	case 3:
-		return ip(r.PickI64(math.MaxInt64, math.MinInt64, 1<<53+1, -(1 << 62)))
+		return ip(r.PickI64(math.MaxInt64, 1<<53+1, 1<<62, 1<<40))
 	default:
 		return ip(1600000000000 + r.Range(0, 200000000000))
 	}
@@ -179,9 +215,17 @@ func genTs(r *gen.Rand) *int64 {
 
 func genExTs(r *gen.Rand) int64 {
 	if r.Chance(1, 8) {
-		return -r.Range(0, 10000)
+		return tame(r, -r.Range(0, 10000), omExactCr)
 	}
-	return 1600000000000 + r.Range(0, 200000000000)
+	return tame(r, 1600000000000+r.Range(0, 200000000000), omExactCr)
+}
+
+func genExValue(r *gen.Rand) string {
+	v := genValue(r)
+	if needsEscape(v) && !r.Chance(1, 6) {
+		v = strings.NewReplacer("\"", "q", "\\", "b", "\n", "n").Replace(v)
+	}
+	return v
 }
 
 func genEx(r *gen.Rand) *Ex {
@@ -198,7 +242,7 @@ func genEx(r *gen.Rand) *Ex {
 		names = []string{"trace.id", "span id", "é"}
 	}
 	for i := 0; i < n; i++ {
-		e.L = append(e.L, LP{names[i], genValue(r)})
+		e.L = append(e.L, LP{names[i], genExValue(r)})
 	}
 	if r.Bool() {
 		e.HasTs = true
@@ -291,9 +335,9 @@ func genFamilies(r *gen.Rand) []Family {
 			}
 			seenL[key] = true
 			if r.Chance(1, 3) {
-				m.Created = ip(1500000000000 + r.Range(0, 100000000000))
+				m.Created = ip(tame(r, 1500000000000+r.Range(0, 100000000000), omExactCr))
 				if r.Chance(1, 6) {
-					m.Created = ip(r.Range(-100000, 100000))
+					m.Created = ip(tame(r, r.Range(-100000, 100000), omExactCr))
 				}
 			}
 			switch typ {
@@ -393,8 +437,134 @@ func genNH(r *gen.Rand) *NHist {
 	return n
 }
 
+func needsEscape(s string) bool { return strings.ContainsAny(s, "\"\\\n") }
+
+func omExactMs(ms int64) bool {
+	v, ok := omTs(omFloat(float64(ms) / 1000))
+	return ok && v == ms
+}
+
+func omExactCr(ms int64) bool {
+	v, ok := omTs(omFloat(cr2f(ms)))
+	return ok && v == ms
+}
+
+func exEscapes(e *Ex) bool {
+	if e == nil {
+		return false
+	}
+	for _, l := range e.L {
+		if needsEscape(l.N) || needsEscape(l.V) {
+			return true
+		}
+	}
+	return false
+}
+
+func isNativeNH(m *Metric) bool {
+	n := m.NH
+	return n != nil && (len(n.PS) > 0 || len(n.NS) > 0 || n.ZeroTh > 0 || n.ZeroCnt > 0)
+}
+
 // classify computes the stable shape key of a valid case: the first known deviation class the
-// generated input falls in, else "valid-<format>".
+// generated input falls in (decided on the input alone), else "valid-<format>".
 func classify(fams []Family, format int, o opts) string {
+	switch format {
+	case fmtText:
+		for _, f := range fams {
+			for _, m := range f.M {
+				if m.Ts != nil && *m.Ts < 0 {
+					return "text-negative-timestamp"
+				}
+			}
+		}
+		for _, f := range fams {
+			if f.Help != nil && *f.Help != "" && strings.Trim(*f.Help, " \t") == "" {
+				return "text-whitespace-only-help"
+			}
+		}
+		for _, f := range fams {
+			if needsEscape(f.Name) {
+				return "quoted-name-metadata-not-unescaped"
+			}
+		}
+	case fmtOM:
+		for _, f := range fams {
+			if needsEscape(f.Name) {
+				return "quoted-name-metadata-not-unescaped"
+			}
+		}
+		lastUnit := ""
+		for _, f := range fams {
+			if f.Unit != nil {
+				lastUnit = *f.Unit
+			} else if lastUnit != "" && o.TypeUnit {
+				return "om-unit-leaks-to-next-family"
+			}
+		}
+		for _, f := range fams {
+			for _, m := range f.M {
+				if f.Type == tCounter && exEscapes(m.Ex) && len(m.Ex.L) > 0 {
+					return "om-exemplar-labels-not-unescaped"
+				}
+				for _, b := range m.B {
+					if (f.Type == tHist || f.Type == tGHist) && exEscapes(b.Ex) {
+						return "om-exemplar-labels-not-unescaped"
+					}
+				}
+			}
+		}
+		for _, f := range fams {
+			for _, m := range f.M {
+				if m.Ts != nil && !omExactMs(*m.Ts) {
+					return "om-timestamp-truncated"
+				}
+				if f.Type == tCounter && m.Ex != nil && len(m.Ex.L) > 0 && m.Ex.HasTs && !omExactCr(m.Ex.TsMs) {
+					return "om-timestamp-truncated"
+				}
+				for _, b := range m.B {
+					if (f.Type == tHist || f.Type == tGHist) && b.Ex != nil && len(b.Ex.L) > 0 && b.Ex.HasTs && !omExactCr(b.Ex.TsMs) {
+						return "om-timestamp-truncated"
+					}
+				}
+				if m.Created != nil && o.Created && o.SkipST && !omExactCr(*m.Created) && f.Type != tGauge && f.Type != tUntyped {
+					return "om-timestamp-truncated"
+				}
+			}
+		}
+	case fmtProto:
+		for _, f := range fams {
+			if f.Type != tHist && f.Type != tGHist {
+				continue
+			}
+			how := 0 // 0 checked, 1 classic, 2 unchecked
+			for i := range f.M {
+				m := &f.M[i]
+				native := !o.IgnoreNH && isNativeNH(m)
+				switch {
+				case how == 1 && native:
+					return "proto-native-histogram-after-classic"
+				case how == 2 && !native:
+					return "proto-histogram-entry-without-histogram"
+				}
+				switch {
+				case how == 1:
+					if native {
+						how = 2
+					}
+				case native:
+					if o.KeepClassic && len(m.B) > 0 {
+						how = 2
+					} else {
+						how = 0
+					}
+				case how == 2:
+					how = 0
+				default:
+					how = 1
+				}
+			}
+		}
+	}
 	return "valid-" + fmtNames[format]
 }
